@@ -27,12 +27,10 @@ package route
 
 import (
 	"fmt"
-	"sort"
 	"strings"
 	"testing"
 	"time"
 
-	"github.com/honeycombio/refinery/config"
 	"github.com/honeycombio/refinery/internal/verifkit"
 	"github.com/honeycombio/refinery/types"
 )
@@ -480,7 +478,6 @@ func TestVerif_C14(t *testing.T) {
 						}
 					}
 				}
-				// which samplers' fields does this span's payload hold at all?
 				for idx := range owner {
 					if _, ok := allowedIdx[idx]; !ok {
 						w.Memoized = memo
@@ -491,9 +488,6 @@ func TestVerif_C14(t *testing.T) {
 				if len(expSamplers) == 1 {
 					s := expSamplers[0]
 					present := map[string]bool{}
-					for _, kv := range spanFields[len(spanFields)-1-0:] {
-						_ = kv
-					}
 					id, _ := sp.Data.Get("verif.id").(string)
 					var idx int
 					fmt.Sscanf(id, "s%d", &idx)
@@ -574,6 +568,4 @@ func TestVerif_C14(t *testing.T) {
 			}
 		}
 	})
-	_ = sort.Strings
-	_ = config.RootPrefix
 }
